@@ -1,7 +1,9 @@
 """E6 — owner of `set` iteration order.
 
-`ChoiceSet` replaces the builtin `set` inside jinja2.idtracking, jinja2.compiler
-and jinja2.ext (the modules whose sets feed code generation).  Every iteration
+`ChoiceSet` replaces the builtin `set` inside jinja2.idtracking, jinja2.compiler,
+jinja2.ext (the modules whose sets feed code generation) and jinja2.filters /
+tests / utils / optimizer / parser (whose results reach the generated source
+when a constant expression is folded at compile time).  Every iteration
 over a ChoiceSet with >= 2 elements is a choice point; the explorer decides in
 which order the elements come out.  Default answer = sorted order; a
 deviation = any other order from the menu (all permutations for <= 4
@@ -68,9 +70,17 @@ class ChoiceSet(set):
 def install():
     import jinja2.compiler
     import jinja2.ext
+    import jinja2.filters
     import jinja2.idtracking
+    import jinja2.optimizer
+    import jinja2.parser
+    import jinja2.tests
+    import jinja2.utils
 
-    for m in (jinja2.compiler, jinja2.ext, jinja2.idtracking):
+    # compiler/ext/idtracking generate code; filters/tests/utils run at compile time when the optimizer folds a
+    # constant expression, and their result is written into the generated source
+    for m in (jinja2.compiler, jinja2.ext, jinja2.idtracking, jinja2.filters, jinja2.tests, jinja2.utils,
+              jinja2.optimizer, jinja2.parser):
         m.set = ChoiceSet
 
 
